@@ -1244,6 +1244,12 @@ def rule_graph_cycle(ctx):
                         if not os_:
                             return False
                         for o in os_:
+                            if o.kind == 'aggr' and depth < 4:
+                                # a residual written out (`Err(e)` rebuilt from the search's error on the way of a `?`)
+                                rv_ = ae.blocks[o.key[0]]['stmts'][o.key[1]]['rv']
+                                if rv_['ak'].get('variant') == 'Err' and rv_['ops'] and from_search(ae.orig_operand(F.operand(rv_['ops'][0])), depth + 1):
+                                    continue
+                                return False
                             if o.kind != 'call':
                                 return False
                             if o.key == fc.bb:
